@@ -9,7 +9,11 @@
  *   O <task> <var> <op> <hexvalue> <has_dest>       S B<t> R<t>:<rc>:<val> ... | <var dumps>     (or BUSY <t>)
  *   M <var> <op> <hexvalue> <has_dest>              same; the call is made by the controller task itself, task id = ntasks
  *   X <var> <op> <hexvalue> <has_dest>              same; the call is made by a real non-qthread pthread (reported as task id ntasks);
- *                                                   only calls that go through the blocking proxy and are enabled (generator)
+ *                                                   only calls that are enabled, i.e. do not have to wait (generator)
+ *   Y <var> <op> <hexvalue> <has_dest>              like X, but the controller first keeps its worker busy (no yield) for up to 200 ms
+ *                                                   or until the external call has returned and re-used its stack: a proxy that returns
+ *                                                   before its forked task ran (the defect fixed by /repo a562144) is then seen to lose
+ *                                                   the operation.  With a sound proxy the call simply completes after the busy wait.
  *   D                                               D R<t>:<rc>:<val> ... | <var dumps>   (drain: empty/fill until no waiters)
  *   Q
  * var dump:  V<i> w=<hex u.w, lock bit masked> s=<qthread_syncvar_status> r=<record present> E=[tids] FE=[tids] FF=[tids]
@@ -138,11 +142,18 @@ static void *hang_watchdog(void *unused)
 static sem_t         xsem;
 static volatile int  xdone = 0;
 static task_t       *volatile xtask = NULL;
+static void __attribute__((noinline)) scribble(unsigned char pat)
+{
+    volatile unsigned char junk[4096];
+    for (unsigned i = 0; i < sizeof junk; i++) junk[i] = pat;
+}
+
 static void *external_caller(void *unused)
 {
     for (;;) {
         while (sem_wait(&xsem) != 0) ;
         do_op(xtask);
+        scribble(0x7f);     /* whatever frame the library call left behind is garbage now */
         MACHINE_FENCE;
         xdone = 1;
     }
@@ -324,7 +335,7 @@ static aligned_t controller(void *unused)
                 default: *V[v] = SYNCVAR_EMPTY_INITIALIZE_TO(val); break;
             }
             printf("I |"); dump_vars(); printf("\n");
-        } else if (line[0] == 'O' || line[0] == 'M' || line[0] == 'X') {
+        } else if (line[0] == 'O' || line[0] == 'M' || line[0] == 'X' || line[0] == 'Y') {
             int t, v, op, hd; uint64_t val;
             int before[MAXT + 1];
             int ctl = line[0] != 'O';
@@ -333,13 +344,14 @@ static aligned_t controller(void *unused)
             if (!ctl && T[t]->cmd_seq != T[t]->done_seq) { printf("BUSY %d\n", t); fflush(stdout); continue; }
             for (int i = 0; i < ntasks; i++) before[i] = T[i]->done_seq;
             T[t]->op = op; T[t]->var = v; T[t]->val = val; T[t]->has_dest = hd;
-            if (line[0] == 'X') {
+            if (line[0] == 'X' || line[0] == 'Y') {
                 /* a real non-qthread pthread makes the call (proxied by the library through a forked task) */
                 double t0 = now();
                 unsigned spins = 0;
                 xtask = T[t]; xdone = 0;
                 MACHINE_FENCE;
                 sem_post(&xsem);
+                if (line[0] == 'Y') { while (!xdone && now() - t0 < 0.2) ; }   /* busy, no yield: the proxy task cannot run here */
                 while (!xdone) {
                     qthread_yield();
                     if ((++spins & 0x3f) == 0) {
